@@ -257,5 +257,7 @@ def tasks(tier):
                                max_time_mask_proportion=prop, num_time_mask=ntm, num_time_mask_proportion=nprop, num_freq_mask=nfm, with_lens=wl, nvalidate=1, time_limit=900))
     for MT, MF in ((1, 1), (2, 0), (0, 2), (2, 2)):
         ts.append(task(PROP, M_, "MaskH", N=2, T=4 if q else 5, F=3 if q else 4, MT=MT, MF=MF))
+    for T, F, MT, MF in ((2, 4, 1, 1), (2, 4, 0, 2)) if q else ((2, 4, 1, 1), (2, 4, 0, 2), (3, 5, 2, 2), (1, 3, 1, 2)):   # fewer frames than coefficients
+        ts.append(task(PROP, M_, "MaskH", N=2, T=T, F=F, MT=MT, MF=MF))
     ts.append(task(PROP, M_, "EvalModeH", N=2, T=3, F=2))
     return ts
